@@ -2817,15 +2817,16 @@ theorem realTok_of_shape (sg ip fp : Bytes) (hsg : sg = [] ∨ sg = [45]) (hip :
   refine ⟨⟨?_, fun c hc => (hall c hc).1⟩, ?_, fun h => (hall 10 h).2.1 rfl, fun h => (hall 13 (List.mem_of_getLast? h)).2.2 rfl, ?_⟩
   · rcases hsg with e | e <;> subst e <;> simp
   · rcases hsg with e | e <;> subst e
-    · unfold memIsReal
+    · unfold memIsReal memIsReal0 realStartOk
       simp only [List.nil_append, List.cons_append, List.isEmpty_cons, Bool.false_eq_true, if_false, List.dropWhile, hd.2.2.2.1]
       have e1 : (d == 45 || d == 43) = false := by simp [hd.2.2.2.2.1, hd.2.2.2.2.2.1]
-      simp only [e1, Bool.false_eq_true, if_false]
+      simp only [e1, Bool.false_eq_true, if_false, h1 d (by simp), Bool.true_or, Bool.true_and]
       rw [show d :: (ip' ++ 46 :: fp) = d :: ip' ++ 46 :: fp from rfl, hreal]
       simp; omega
-    · unfold memIsReal
+    · unfold memIsReal memIsReal0 realStartOk
       simp only [List.cons_append, List.nil_append, List.isEmpty_cons, Bool.false_eq_true, if_false, List.dropWhile,
-        show isSpace 45 = false by decide, show ((45 : UInt8) == 45 || (45 : UInt8) == 43) = true by decide, if_true]
+        show isSpace 45 = false by decide, show ((45 : UInt8) == 45 || (45 : UInt8) == 43) = true by decide, if_true,
+        h1 d (by simp), Bool.true_or, Bool.true_and]
       rw [show d :: (ip' ++ 46 :: fp) = d :: ip' ++ 46 :: fp from rfl, hreal]
       simp; omega
   · rcases hsg with e | e <;> subst e
